@@ -21,7 +21,7 @@ if os.path.join(REPO, "src") not in sys.path:
     sys.path.insert(0, os.path.join(REPO, "src"))
 logging.disable(logging.CRITICAL)
 
-BOUND = float(os.environ.get("VERIF_SOCK_BOUND", "3.0"))
+BOUND = float(os.environ.get("VERIF_SOCK_BOUND", "5.0"))
 LINES = {"query": "num-running", "mutate": "lock", "help": "stop -h", "unknown": "frobnicate", "badarg": "stop",
          "convfail": "stop abc", "await": "flush"}
 
@@ -240,14 +240,14 @@ def run_in_this_process(job):
     loop = asyncio.new_event_loop()
     asyncio.set_event_loop(loop)
     try:
-        trace = loop.run_until_complete(asyncio.wait_for(run_script(job), 40))
+        trace = loop.run_until_complete(asyncio.wait_for(run_script(job), 70))
         return {"ok": True, "trace": trace}
     except BaseException as e:
         import traceback
         return {"ok": False, "err": "%s: %s" % (type(e).__name__, e), "tb": traceback.format_exc(), "trace": []}
 
 
-def execute(job, timeout=45):
+def execute(job, timeout=75):
     """Run one script in a child process (hard timeout), return its trace."""
     try:
         p = subprocess.run([sys.executable, "-W", "ignore", os.path.abspath(__file__), "-"], input=json.dumps(job), text=True,
